@@ -21,6 +21,10 @@ pub enum Op {
     /// the row handed over as a lazy iterator whose size hint is not exact: 0 = a `filter` (upper bound one too high),
     /// 1 = `from_fn` (no upper bound)
     ValuesLazy(usize, u8),
+    /// a row of m cells each of which is a two-element tuple expression (one cell, whatever it looks like)
+    ValuesTuple(usize),
+    /// a column list naming the same column k times (the statement is what the caller asked for: k columns)
+    ColumnsRepeated(usize),
     ValuesPanic(usize),
     ValuesFromPanic(usize, usize),
     SelectFrom(usize),
@@ -133,6 +137,10 @@ impl Model for InsertModel {
             v.push(Op::ValuesLazy(m, 0));
             v.push(Op::ValuesLazy(m, 1));
         }
+        v.push(Op::ValuesTuple(1));
+        v.push(Op::ValuesTuple(2));
+        v.push(Op::ColumnsRepeated(2));
+        v.push(Op::ColumnsRepeated(3));
         for (a, b) in [(1, 1), (2, 2), (1, 2), (2, 1), (0, 1), (3, 3)] {
             v.push(Op::ValuesFromPanic(a, b));
         }
@@ -150,14 +158,16 @@ impl Model for InsertModel {
     fn step(&self, s: &mut InsertStatement, r: &mut Ref, op: &Op) -> Result<(), Fail> {
         let before = s.clone();
         match op {
-            Op::Columns(k) | Op::ColumnsAlt(k) => {
-                let names = col_names(*k, matches!(op, Op::ColumnsAlt(_)));
+            Op::Columns(k) | Op::ColumnsAlt(k) | Op::ColumnsRepeated(k) => {
+                let names = if matches!(op, Op::ColumnsRepeated(_)) { vec!["x1".to_string(); *k] } else { col_names(*k, matches!(op, Op::ColumnsAlt(_))) };
                 s.columns(names.iter().map(|n| Alias::new(n.as_str())));
                 r.cols = names;
             }
-            Op::Values(m) | Op::ValuesLazy(m, _) => {
+            Op::Values(m) | Op::ValuesLazy(m, _) | Op::ValuesTuple(m) => {
                 let tags = r.row_tags(*m, 0);
+                let tuple = matches!(op, Op::ValuesTuple(_));
                 let got = match op {
+                    Op::ValuesTuple(_) => s.values(tags.iter().map(|t| SimpleExpr::from(Expr::tuple([Expr::val(*t).into(), Expr::val(*t).into()])))).map(|_| ()),
                     Op::ValuesLazy(_, 0) => {
                         let mut cells = row_exprs(&tags);
                         cells.push(Expr::val(-1).into());
@@ -170,6 +180,7 @@ impl Model for InsertModel {
                     }
                     _ => s.values(row_exprs(&tags)).map(|_| ()),
                 };
+                let tags: Vec<i64> = if tuple { tags.iter().map(|t| -*t - 10).collect() } else { tags };
                 match (expect_row(r, *m), got) {
                     (Ok(()), Ok(())) => accept_row(r, tags),
                     (Err((c, v)), Err(Error::ColValNumMismatch { col_len, val_len })) => {
@@ -254,8 +265,8 @@ impl Model for InsertModel {
     }
     fn op_class(&self, op: &Op) -> String {
         match op {
-            Op::Columns(_) | Op::ColumnsAlt(_) => "columns",
-            Op::Values(_) | Op::ValuesLazy(..) | Op::ValuesPanic(_) | Op::ValuesFromPanic(..) => "row",
+            Op::Columns(_) | Op::ColumnsAlt(_) | Op::ColumnsRepeated(_) => "columns",
+            Op::Values(_) | Op::ValuesLazy(..) | Op::ValuesTuple(_) | Op::ValuesPanic(_) | Op::ValuesFromPanic(..) => "row",
             Op::SelectFrom(_) => "select",
             Op::SelectFromStar(_) => "select",
             Op::OrDefaultValues | Op::OrDefaultValuesMany(_) => "default",
@@ -366,6 +377,7 @@ fn parse_insert(d: Dialect, sql: &str, vals: &[Value]) -> Result<Parsed, String>
                 }
             }
             Tok::Punct(p) if p == "*" => STAR,
+            Tok::Punct(p) if p == "(" => return Err("TUPLE".into()),
             other => return Err(format!("expected a cell, got {:?}", other)),
         };
         *i += 1;
@@ -437,7 +449,23 @@ fn parse_insert(d: Dialect, sql: &str, vals: &[Value]) -> Result<Parsed, String>
                 let mut row = vec![];
                 if !punct(i, ")") {
                     loop {
-                        row.push(cell(&mut i, &mut next_param)?);
+                        if punct(i, "(") {
+                            // a tuple cell `(x, x)`: one cell; encoded as -x - 10
+                            i += 1;
+                            let x = cell(&mut i, &mut next_param)?;
+                            if !punct(i, ",") {
+                                return Err("expected , inside a tuple cell".into());
+                            }
+                            i += 1;
+                            let y = cell(&mut i, &mut next_param)?;
+                            if !punct(i, ")") || x != y {
+                                return Err(format!("malformed tuple cell ({x}, {y}"));
+                            }
+                            i += 1;
+                            row.push(-x - 10);
+                        } else {
+                            row.push(cell(&mut i, &mut next_param)?);
+                        }
                         if punct(i, ",") {
                             i += 1;
                         } else {
